@@ -110,6 +110,57 @@ func samePoint(gi *GroupInfo, a, b []byte) bool {
 	return p.Equal(q)
 }
 
+// reusedBuffer: a caller that keeps ONE message buffer and overwrites it between calls on the same
+// scheme value.  A signature made over the old content must not verify for the new content, a
+// signature over the new content is x*H(new) and verifies, and going back to the old content the
+// first signature verifies again.  (A scheme that remembers the last message by reference fails.)
+func reusedBuffer(t *rapid.T, ev *evProp, key, ctx string, sch interface {
+	Sign(kyber.Scalar, []byte) ([]byte, error)
+	Verify(kyber.Point, []byte, []byte) error
+}, x kyber.Scalar, X kyber.Point, sigG *GroupInfo, msg []byte) {
+	if len(msg) == 0 {
+		return
+	}
+	buf := append(make([]byte, 0, len(msg)+8), msg...)
+	sig1, err := sch.Sign(x, buf)
+	if err != nil {
+		return // reported by the caller's own Sign check
+	}
+	old := append([]byte(nil), buf...)
+	if rapid.Bool().Draw(t, "rb.allnew") {
+		for i := range buf {
+			buf[i] ^= byte(0x35 + 7*i)
+		}
+	}
+	pos := uniformInt(t, 0, len(buf)*8-1, "rb.bit")
+	buf[pos/8] ^= 1 << uint(pos%8)
+	if bytes.Equal(buf, old) {
+		return
+	}
+	cur := append([]byte(nil), buf...)
+	if sch.Verify(X, buf, sig1) == nil {
+		violationOrKnown(t, ev, key, "a signature over the OLD content of a message buffer verifies after the buffer was overwritten (old=%x new=%x)\n%s", old, cur, ctx)
+		return
+	}
+	sig2, err := sch.Sign(x, buf)
+	if err != nil || !bytes.Equal(sig2, mustMarshal(t, sigG.G.Point().Mul(x, sigG.Hash(cur, nil)))) {
+		violationOrKnown(t, ev, key, "signing the NEW content of a reused message buffer does not give x*H(new): %x, %v\n%s", sig2, err, ctx)
+		return
+	}
+	if err := sch.Verify(X, cur, sig2); err != nil {
+		violationOrKnown(t, ev, key, "the signature over the new content of a reused buffer is rejected: %v\n%s", err, ctx)
+		return
+	}
+	copy(buf, old)
+	if err := sch.Verify(X, buf, sig1); err != nil {
+		violationOrKnown(t, ev, key, "after restoring the old content the first signature is rejected: %v\n%s", err, ctx)
+		return
+	}
+	if sch.Verify(X, buf, sig2) == nil {
+		violationOrKnown(t, ev, key, "after restoring the old content the signature over the other content verifies\n%s", ctx)
+	}
+}
+
 func c09BLS(t *rapid.T, ev *evProp) {
 	c := genCombo(t)
 	sch := c.scheme()
@@ -138,6 +189,7 @@ func c09BLS(t *rapid.T, ev *evProp) {
 	if want := mustMarshal(t, c.sig.G.Point().Mul(x.S, c.sig.Hash(msg, nil))); !bytes.Equal(sig, want) {
 		violationOrKnown(t, ev, key("value"), "signature %x is not x*H(m) = %x\n%s", sig, want, ctx)
 	}
+	reusedBuffer(t, ev, key("reused-buffer"), ctx, sch, x.S, X, c.sig, msg)
 	mut := rapid.SampledFrom([]string{"msg", "otherkey", "key+base", "identitykey", "sig", "sig", "sig"}).Draw(t, "mut")
 	mX, mmsg, msig := X, msg, sig
 	expectReject := true
@@ -172,6 +224,25 @@ func c09BLS(t *rapid.T, ev *evProp) {
 	ev.Case(expectReject, ctx+" mut="+mut, "bls:"+c.name, "bls-mut:"+mut)
 }
 
+// tblsPartial presents partial signing by one share as a Sign/Verify pair (index prefix stripped).
+type tblsPartial struct {
+	ts  sign.ThresholdScheme
+	sh  *share.PriShare
+	pub *share.PubPoly
+}
+
+func (p tblsPartial) Sign(_ kyber.Scalar, m []byte) ([]byte, error) {
+	b, err := p.ts.Sign(p.sh, m)
+	if err != nil || len(b) < 2 {
+		return nil, fmt.Errorf("partial sign: %v", err)
+	}
+	return b[2:], nil
+}
+
+func (p tblsPartial) Verify(_ kyber.Point, m, sig []byte) error {
+	return p.ts.VerifyPartial(p.pub, m, append([]byte{byte(p.sh.I >> 8), byte(p.sh.I)}, sig...))
+}
+
 func c09TBLS(t *rapid.T, ev *evProp) {
 	c := genCombo(t)
 	ts := c.tscheme()
@@ -198,6 +269,9 @@ func c09TBLS(t *rapid.T, ev *evProp) {
 			violationOrKnown(t, ev, key("IndexOf"), "IndexOf(partial %d) = %d, %v\n%s", i, idx, err, ctx)
 		}
 	}
+	// partial signing / verification through one reused message buffer
+	sh0 := pri.Eval(uint32(rapid.IntRange(0, n-1).Draw(t, "rb.share")))
+	reusedBuffer(t, ev, key("reused-buffer"), ctx, tblsPartial{ts, sh0, pub}, sh0.V, nil, c.sig, msg)
 	// the unique signature
 	want, err := c.scheme().Sign(secret.S, msg)
 	if err != nil {
@@ -439,6 +513,7 @@ func c09BDN(t *rapid.T, ev *evProp) {
 			cnt++
 		}
 	}
+	reusedBuffer(t, ev, key("reused-buffer"), ctx, sch, privs[0], pubs[0], c.sig, msg)
 	if mask.CountEnabled() != cnt || mask.CountTotal() != n {
 		violationOrKnown(t, ev, key("mask-count"), "CountEnabled=%d CountTotal=%d, want %d/%d\n%s", mask.CountEnabled(), mask.CountTotal(), cnt, n, ctx)
 	}
@@ -775,20 +850,20 @@ const c09Rule = "four generated families over the 8 (suite, signature group) com
 func TestC09_BLS(t *testing.T) {
 	ev := evFor("C09")
 	ev.Rule(c09Rule)
-	rcheck(t, 250, 48000, func(t *rapid.T) { c09BLS(t, ev) })
+	rcheck(t, 500, 48000, func(t *rapid.T) { c09BLS(t, ev) })
 }
 
 func TestC09_TBLS(t *testing.T) {
 	ev := evFor("C09")
-	rcheck(t, 120, 24000, func(t *rapid.T) { c09TBLS(t, ev) })
+	rcheck(t, 240, 24000, func(t *rapid.T) { c09TBLS(t, ev) })
 }
 
 func TestC09_BDN(t *testing.T) {
 	ev := evFor("C09")
-	rcheck(t, 160, 30000, func(t *rapid.T) { c09BDN(t, ev) })
+	rcheck(t, 320, 30000, func(t *rapid.T) { c09BDN(t, ev) })
 }
 
 func TestC09_CoSi(t *testing.T) {
 	ev := evFor("C09")
-	rcheck(t, 500, 90000, func(t *rapid.T) { c09CoSi(t, ev) })
+	rcheck(t, 1000, 90000, func(t *rapid.T) { c09CoSi(t, ev) })
 }
